@@ -19,7 +19,9 @@
            that ISO defines,  (hence not between two requests, whatever happens
            to tester connections meanwhile -- but for ISO's own session
            time-out: [E3-between], StepVerdictEG)
-     [E4]  and disabling one behaviour only removes that rule."
+     [E4]  and disabling one behaviour only removes that rule."  (Chain with
+           B \ {r}; and the stages that remain do not decide by the premise
+           of the removed rule: [E4-only-that-rule], StepVerdictE4T)
    C14: "[A1] neither raises nor drops the connection, [A2] stays in a session
    it offers, [A3] what it sends back is a well-formed UDS response that
    gallia's own client accepts as the answer to exactly that request."
@@ -252,6 +254,71 @@ Unspecified(V, B, before, x) ==
   /\ x.raised = ""
   /\ Cardinality(Opts(V, B, x.q)) > 1
   /\ Cardinality({Chain(V, B, before, x.q, o) : o \in Opts(V, B, x.q)}) > 1
+
+----------------------------------------------------------------------------
+(* [E4-only-that-rule]  "disabling one behaviour ONLY removes that rule".
+
+   Two of the rules read their premise off the model: sns ("the active session does not offer the service")
+   and sfns ("... not this sub-function").  When such a rule is disabled and its premise holds, Chain sends
+   the request on to the stages that remain -- in the end to the service-specific stage, whose replies the
+   statement leaves open.  Open, but not free to re-introduce the removed rule: if, with the rule switched
+   off, the answer (or the state change) still depended on the rule's premise, the request would still be
+   decided by "the service / sub-function is not offered here" -- the rule would have moved, not gone
+   (whatever response code it then uses, generalReject for "nobody answered" included).
+
+   So the answer is compared with the answer of the SAME virtual ECU (same seed, parameters, switches,
+   session and security state, same history) whose model differs in nothing but the premise: the twin
+   offers the service and the sub-function in the active session (model V2).  The twin tells what the
+   remaining stages say to this request when the removed rule has nothing to say; "only that rule removed"
+   must give the same KIND of answer -- nothing sent / positive / negative with the same response code --
+   and the same session and security state afterwards.  The payload of a positive reply is not compared
+   (seeds and data records are random).  In particular "generalReject because no stage answered" is
+   admissible exactly when no stage answers the twin either.
+
+   The clause speaks only where everything is unambiguous: a model-reading rule is disabled, it (and nothing
+   before it) would have answered were it enabled, the remaining chain ends in the service-specific stage for
+   every admissible option, and in the twin neither model-reading rule applies even when enabled.  Both
+   exchanges start from the same state and carry the same request (a SendKey may carry the key of its own
+   seed).  y = [q, before, pre, vis, raised, after] is the twin's exchange. *)
+ModelRules     == {"sns", "sfns"}
+ModelRuleNames == {"R1a/serviceNotSupported", "R1b/serviceNotSupportedInActiveSession",
+                   "R3/subFunctionNotSupported", "R3/subFunctionNotSupportedInActiveSession"}
+
+ReplyOf(pre, vis) == IF pre.k # "unknown" THEN pre ELSE vis
+Kind(r, sid) ==
+  IF r.k = "none" THEN <<"none", 0>>
+  ELSE IF IsNegFor(r, sid) THEN <<"neg", r.b[3]>>
+  ELSE IF IsPosFor(r, sid) THEN <<"pos", 0>>
+  ELSE <<"other", 0>>
+
+SameRequest(q, q2) ==
+  /\ Sid(q) = Sid(q2) /\ q.p = q2.p /\ Has2(q) = Has2(q2)
+  /\ Has2(q) => q.b[2] = q2.b[2]
+  /\ \/ q = q2
+     \/ Sid(q) = SID_SA /\ Has2(q) /\ Sub(q) % 2 = 0      \* SendKey: each side answers its own seed
+
+TwinJudged(V, V2, B, before, x, y) ==
+  LET q  == x.q
+      BM == B \cup ModelRules
+  IN
+  /\ ModelRules \ B # {}
+  /\ x.raised = "" /\ y.raised = ""
+  /\ y.before = before
+  /\ SameRequest(q, y.q)
+  /\ \A o \in Opts(V, B, q)    : Chain(V, B, before, q, o).c = "specific"
+  /\ \A o \in Opts(V, BM, q)   : Chain(V, BM, before, q, o).rule \in ModelRuleNames
+  /\ \A o \in Opts(V2, BM, y.q) : Chain(V2, BM, before, y.q, o).c = "specific"
+
+StepVerdictE4T(V, V2, B, before, x, y) ==
+  IF ~TwinJudged(V, V2, B, before, x, y) THEN "ok"
+  ELSE IF Kind(ReplyOf(x.pre, x.vis), Sid(x.q)) # Kind(ReplyOf(y.pre, y.vis), Sid(x.q))
+       THEN "E4/only-that-rule/disabled-rule-still-decides-the-reply"
+  ELSE IF x.after # y.after
+       THEN "E4/only-that-rule/disabled-rule-still-decides-the-state"
+  ELSE "ok"
+
+E4TwinLabels == {"E4/only-that-rule/disabled-rule-still-decides-the-reply",
+                 "E4/only-that-rule/disabled-rule-still-decides-the-state"}
 
 \* C14.  A1: no raise, connection loop still serving; a missing answer must be
 \* explained by the suppress rule.  A2: session offered.  A3: reply well formed
